@@ -8,6 +8,7 @@ from pyvc import gen
 K_ALL = "synkit/Graph/Matcher/subgraph_matcher.py::SubgraphSearchEngine._find_all_subgraph_mappings"
 K_TOP = "synkit/Graph/Matcher/subgraph_matcher.py::SubgraphSearchEngine.find_subgraph_mappings"
 NA, EA = ["element"], ["order"]
+SELECTIONS = [(["element"], ["order"]), (["charge"], ["order"]), (["element", "charge"], []), ([], ["order"])]
 
 
 def canon(ms):
@@ -69,7 +70,10 @@ def enc(x):
     return base64.b64encode(pickle.dumps(x)).decode()
 
 
-def check_pair(tw, host, pattern, fails, tags):
+def check_pair(tw, host, pattern, fails, tags, sel=None):
+    global NA, EA
+    if sel is not None:
+        NA, EA = sel
     nontrivial = 0
     h0, p0 = gen.graph_dump(host), gen.graph_dump(pattern)
     for strategy in ("all", "comp", "bt"):
@@ -132,10 +136,13 @@ def run(tw, tier, seed, only=None):
     fails, cases, nontriv, samples = [], 0, 0, []
     hosts = gen.labelled_graphs(3 if tier == "quick" else 4, limit=120 if tier == "quick" else 600, rng=rng)
     patterns = gen.labelled_graphs(2 if tier == "quick" else 3, limit=40 if tier == "quick" else 120, rng=rng)
+    for g in hosts + patterns:          # charges vary too (attribute selections without "element" must still be exact)
+        for n in g.nodes:
+            g.nodes[n]["charge"] = rng.choice([0, 0, 1])
     for host in hosts:
         for pattern in rng.sample(patterns, min(len(patterns), 6 if tier == "quick" else 12)):
             cases += 1
-            nontriv += check_pair(tw, host, pattern, fails, {"kind": "enumerated"})
+            nontriv += check_pair(tw, host, pattern, fails, {"kind": "enumerated"}, SELECTIONS[cases % len(SELECTIONS)])
         if len(fails) > 40:
             break
     # disconnected hosts / patterns (the component-aware paths)
@@ -143,7 +150,7 @@ def run(tw, tier, seed, only=None):
         h = nx.disjoint_union(rng.choice(hosts), rng.choice(hosts))
         p = nx.disjoint_union(rng.choice(patterns), rng.choice(patterns)) if rng.random() < 0.7 else rng.choice(patterns)
         cases += 1
-        nontriv += check_pair(tw, h, p, fails, {"kind": "disconnected"})
+        nontriv += check_pair(tw, h, p, fails, {"kind": "disconnected"}, SELECTIONS[cases % len(SELECTIONS)])
         if len(samples) < 2:
             samples.append({"host": gen.graph_desc(h), "pattern": gen.graph_desc(p)})
         if len(fails) > 40:
